@@ -220,3 +220,127 @@ Definition c02_frame_check (c : frame_case) : bool :=
   result_eqb (list_eqb (list_eqb pair_eqb)) (fo_dicts_after c) (Ok ds).
 
 Definition c02_frame_show (c : frame_case) := frame_model c.
+
+(* ================= sessions: several row classes and frames alive in one process =================
+   Row.create_class(fields, tuples_only) (row.py 193-216) returns a fresh class whose behaviour is fixed by its
+   own arguments; DataFrame.from_arrow (converters.py 88-126) creates a tuples-only class for the table's
+   columns; DataFrame(dicts) / DataFrame(rows=[], schema=names) create a dictionary-aware class for theirs.
+   A session is a history of such creations and of uses of the handles created so far.  Handles are
+   positions in creation order (classes, frames and rows are numbered separately). *)
+Section Session.
+Variables K V : Type.
+Variable eqK : forall a b : K, {a = b} + {a <> b}.
+Variable vnone : V.
+
+Record sstate := SState {
+  s_classes : list (list K * bool);                   (* (fields, tuples_only) *)
+  s_frames : list (bool * (list K * list (list V)));  (* (takes dictionaries by name?, (columns, rows)) *)
+  s_rows : list (list K * list V)                     (* (fields of the row's class, cells) *)
+}.
+
+Definition s_init : sstate := SState [] [] [].
+
+Inductive sop :=
+| SClass (fields : list K) (tuples_only : bool)   (* Row.create_class(fields, tuples_only)      -> new class handle *)
+| SArrow (cols : list K) (rows : list (list V))   (* DataFrame.from_arrow(table)                 -> new frame handle *)
+| SFrame (ds : list (list (K * V)))               (* DataFrame(dicts)                            -> new frame handle *)
+| SNamed (cols : list K)                          (* DataFrame(rows=[], schema=cols)             -> new frame handle *)
+| SRowDict (c : nat) (d : list (K * V))           (* class c applied to a dictionary             -> new row handle *)
+| SRowTuple (c : nat) (cells : list V)            (* class c applied to a tuple                  -> new row handle *)
+| SAppend (f : nat) (d : list (K * V))            (* frame f .append(dictionary) *)
+| SRows (f : nat)                                 (* read column_names and the rows of frame f *)
+| SView (r : nat).                                (* read keys / cells / as_dict of row r again *)
+
+Inductive sout :=
+| SOClass
+| SOFrame (cols : list K) (rows : list (list V))
+| SORow (fields : list K) (cells : list V) (asdict : list (K * V))
+| SOSkip                                          (* not a call this property speaks about (bad handle,
+                                                     dictionary to a tuples-only class or to an Arrow frame) *)
+| SORaise (e : exn).                              (* never produced by the model: the call raised *)
+
+Fixpoint set_nth {A : Type} (l : list A) (i : nat) (x : A) : list A :=
+  match l, i with
+  | [], _ => []
+  | _ :: r, O => x :: r
+  | y :: r, S j => y :: set_nth r j x
+  end.
+
+Definition row_out (fr : list K * list V) : sout :=
+  SORow (fst fr) (snd fr) (as_dict eqK (fst fr) (snd fr)).
+
+Definition sstep (s : sstate) (o : sop) : sstate * sout :=
+  match o with
+  | SClass fs t => (SState (s_classes s ++ [(fs, t)]) (s_frames s) (s_rows s), SOClass)
+  | SArrow cols rows => (SState (s_classes s) (s_frames s ++ [(false, (cols, rows))]) (s_rows s), SOFrame cols rows)
+  | SFrame ds =>
+      let f := frame_of_dicts eqK vnone ds in
+      (SState (s_classes s) (s_frames s ++ [(true, f)]) (s_rows s), SOFrame (fst f) (snd f))
+  | SNamed cols => (SState (s_classes s) (s_frames s ++ [(true, (cols, []))]) (s_rows s), SOFrame cols [])
+  | SRowDict c d =>
+      match nth_error (s_classes s) c with
+      | Some (fs, false) =>
+          let fr := (fs, extract eqK vnone fs d) in
+          (SState (s_classes s) (s_frames s) (s_rows s ++ [fr]), row_out fr)
+      | _ => (s, SOSkip)
+      end
+  | SRowTuple c cells =>
+      match nth_error (s_classes s) c with
+      | Some (fs, _) =>
+          let fr := (fs, cells) in
+          (SState (s_classes s) (s_frames s) (s_rows s ++ [fr]), row_out fr)
+      | None => (s, SOSkip)
+      end
+  | SAppend f d =>
+      match nth_error (s_frames s) f with
+      | Some (true, fr) =>
+          let fr' := frame_append eqK vnone fr d in
+          (SState (s_classes s) (set_nth (s_frames s) f (true, fr')) (s_rows s), SOFrame (fst fr') (snd fr'))
+      | _ => (s, SOSkip)
+      end
+  | SRows f =>
+      match nth_error (s_frames s) f with
+      | Some (_, fr) => (s, SOFrame (fst fr) (snd fr))
+      | None => (s, SOSkip)
+      end
+  | SView r =>
+      match nth_error (s_rows s) r with
+      | Some fr => (s, row_out fr)
+      | None => (s, SOSkip)
+      end
+  end.
+
+Fixpoint srun (s : sstate) (ops : list sop) : sstate * list sout :=
+  match ops with
+  | [] => (s, [])
+  | o :: r => let '(s1, x) := sstep s o in
+              let '(s2, xs) := srun s1 r in (s2, x :: xs)
+  end.
+
+End Session.
+
+Arguments SState {K V}. Arguments s_classes {K V}. Arguments s_frames {K V}. Arguments s_rows {K V}.
+Arguments s_init {K V}.
+Arguments SClass {K V}. Arguments SArrow {K V}. Arguments SFrame {K V}. Arguments SNamed {K V}.
+Arguments SRowDict {K V}. Arguments SRowTuple {K V}. Arguments SAppend {K V}. Arguments SRows {K V}.
+Arguments SView {K V}.
+Arguments SOClass {K V}. Arguments SOFrame {K V}. Arguments SORow {K V}. Arguments SOSkip {K V}.
+Arguments SORaise {K V}.
+Arguments row_out {K V}. Arguments sstep {K V}. Arguments srun {K V}.
+
+Definition sout_eqb (a b : sout key Z) : bool :=
+  match a, b with
+  | SOClass, SOClass => true
+  | SOFrame c1 r1, SOFrame c2 r2 => list_eqb key_eqb c1 c2 && list_eqb row_eqb r1 r2
+  | SORow f1 c1 d1, SORow f2 c2 d2 => list_eqb key_eqb f1 f2 && row_eqb c1 c2 && list_eqb pair_eqb d1 d2
+  | SOSkip, SOSkip => true
+  | SORaise x, SORaise y => exn_eqb x y
+  | _, _ => false
+  end.
+
+(* stream "session": (history, what each call returned on the implementation) *)
+Definition c02_session_show (c : list (sop key Z) * list (sout key Z)) : list (sout key Z) :=
+  snd (srun key_dec 0%Z s_init (fst c)).
+
+Definition c02_session_check (c : list (sop key Z) * list (sout key Z)) : bool :=
+  list_eqb sout_eqb (c02_session_show c) (snd c).
